@@ -462,7 +462,7 @@ func init() {
 		Real: []string{"native/service/header_sync/eth (SyncGenesisHeader, SyncBlockHeader, RestructChain, difficulty/base-fee/gas rules)", "native/service/header_sync entrance + side_chain_manager registry", "native runtime, ledger store, overlay/cache DB (E1 harness: every block traced per transaction, re-executed, replicated)"},
 		Stub: []string{"Ethash seal verification switched off by hook H4 (eth.SkipSealHook)", "Ethereum network = block-tree generator", "VBFT server / p2p (E1 block-producer stub)"},
 		Assumptions: []string{"the wall clock read by SyncBlockHeader is the synctest bubble's fake clock", "header acceptance completeness is not asserted (probe honest_headers_mostly_accepted instead)", "fork choice among equal total difficulties is not constrained by the property"},
-		QuickRuns: 160, ThoroughRuns: 12000, QuickCap: 60, ThoroughCap: 840,
+		QuickRuns: 128, ThoroughRuns: 12000, QuickCap: 60, ThoroughCap: 840,
 		RequiredProbes: []string{"honest_headers_mostly_accepted", "reorg_to_shorter_heavier_fork", "resubmission_of_known_headers_noop", "head_tied_with_other_stored_header"},
 		Generate:       genC27,
 		Execute:        execC27,
